@@ -74,6 +74,18 @@ def pointsInPoly (poly : List (Pt K)) (pts : List (Pt K)) : List Bool := pts.map
 def filterPts (inverted : Bool) (poly : List (Pt K)) (pts : List (Pt K)) : List Bool :=
   (pointsInPoly poly pts).map fun f => if inverted then !f else f
 
+/-- remove every vertex that equals its predecessor in the list (zero-length edges);
+`de-duplication of ADJACENT repeats` – the only kind that is always harmless -/
+def dedupAdj [DecidableEq K] : List (Pt K) → List (Pt K)
+  | [] => []
+  | [v] => [v]
+  | v :: w :: r => if v = w then dedupAdj (w :: r) else v :: dedupAdj (w :: r)
+
+/-- remove every later occurrence of a vertex that was seen before (adjacent or not) -/
+def dedupAll [DecidableEq K] : List (Pt K) → List (Pt K) → List (Pt K)
+  | _, [] => []
+  | seen, v :: r => if seen.contains v then dedupAll seen r else v :: dedupAll (v :: seen) r
+
 end Geometry
 
 /-! ## Rounding guard used by the correspondence (driver only)
